@@ -12,6 +12,13 @@ def Op.isLoad : Op → Bool
   | .load _ => true
   | _ => false
 
+/-- the Peer object an operation presents for verification (add_verified_peer directly, discover_address through its
+    trailing add_verified_peer) -/
+def Op.verifies : Op → Option Peer
+  | .add p => some p
+  | .disc p _ _ _ => some p
+  | _ => none
+
 namespace Graph
 
 def addVerified (g : Graph) (p : Peer) : Graph :=
